@@ -215,7 +215,67 @@ def check_merged(plan) -> Result:
     return r
 
 
+def check_inflight(plan) -> Result:
+    """The receiver while the host's own sender is busy: one DATA frame of the host is in flight (written, not yet
+    acknowledged) when the peer's frames arrive - several of them in ONE read, processed before the sending task runs again.
+    What the receiver hands up and writes back is judged exactly as otherwise; nothing may escape data_received()."""
+    import asyncio
+
+    from vlib import vloop
+
+    start, seq = plan["start"], [tuple(s_) for s_ in plan["seq"]]
+    r = Result(key=["i", start, plan["seq"]], classes=["host-frame-in-flight"])
+
+    async def scenario(loop):
+        proto, tr, up = make_host(loop)
+        expected = 0
+        for i in range(start):
+            data, _ = encode(("D", i, 0, 0), 9000 + i)
+            proto.data_received(data)
+            expected = (expected + 1) % 8
+        send = asyncio.ensure_future(proto.send_data(b"\x42\x00\x05\x01"))
+        for _ in range(5):
+            await asyncio.sleep(0)
+        mine = [f for _, d in tr.writes for f in refash.split_wire(d) if f.get("kind") == "DATA"]
+        if len(mine) != 1 or mine[0]["frm"] != 0:
+            r.bad("C04:harness:no-frame-in-flight", f"{mine}")
+            return
+        want_ev, want_wr, blob = [], [], b""
+        for idx, sym in enumerate(seq):
+            data, payload = encode(sym, idx + 1)
+            blob += data
+            if sym[0] == "D":
+                if sym[1] == expected:
+                    expected = (expected + 1) % 8
+                    want_ev.append(("data", payload))
+                    want_wr.append(("ACK", expected))
+                else:
+                    want_wr.append((("ACK" if sym[2] else "NAK"), expected))
+        w0, e0 = len(tr.writes), len(up.events)
+        try:
+            proto.data_received(blob)
+        except Exception as e:
+            r.bad("C04:raises", f"frames {seq} in one read while a host frame is in flight: {e!r}")
+        got_wr = [(f.get("kind"), f.get("ack")) for _, d in tr.writes[w0:] for f in refash.split_wire(d)]
+        got_ev = [(k_, v) for _, k_, v in up.events[e0:]]
+        if not r.violations and got_ev != want_ev:
+            r.bad("C04:inflight:upward-differs", f"frames {seq}: handed up {got_ev}, expected {want_ev}; plan {plan}")
+        if not r.violations and got_wr != want_wr:
+            r.bad("C04:inflight:not-one-ack-or-nak-per-data-frame", f"frames {seq}: wrote {got_wr}, expected {want_wr}; plan {plan}")
+        send.cancel()
+        await asyncio.sleep(0)
+
+    try:
+        vloop.run_case(scenario, horizon=100)
+    except vloop.Hang:
+        pass
+    r.nontrivial = True
+    return r
+
+
 def replay(plan) -> Result:
+    if plan.get("inflight"):
+        return check_inflight(plan)
     return check_merged(plan) if "cuts" in plan else check(plan)
 
 
@@ -276,6 +336,8 @@ def run(ctx):
 
     ctx.parallel(_worker_codes, list(range(8)))
     ctx.exhaustive["all 256 RSTACK and ERROR codes, alone and followed by a DATA frame, one read or two"] = True
+    ctx.parallel(_worker_inflight, list(range(8)))
+    ctx.exhaustive["every ordered pair of ACK/NAK/DATA frames in one read while a host frame is in flight, from 8 start states"] = True
     ctx.parallel(_worker_pairs, list(range(8)))
     ctx.exhaustive["every ordered pair of frames arriving in one read, from 8 start states"] = True
     if quick:
@@ -309,6 +371,22 @@ def _worker_codes(c, start):
             if code % 8 == start:
                 plan = {"start": start, "seq": [[kind, code], follow], "cuts": []}
                 c.check(plan, check_merged(plan), sample=False)
+
+
+def _worker_inflight(c, start):
+    """every ordered pair (and single) over ACK / NAK / DATA symbols that refer to the host's in-flight frame 0"""
+    syms = [("A", 1), ("A", 0), ("N", 0), ("N", 1), ("D", start, 0, 1), ("D", start, 0, 0), ("D", (start + 1) % 8, 0, 1),
+            ("D", (start + 1) % 8, 1, 1), ("D", start, 1, 1), ("D", (start + 7) % 8, 1, 0)]
+    for a_ in syms:
+        plan = {"start": start, "seq": [list(a_)], "inflight": True}
+        c.check(plan, check_inflight(plan), sample=False)
+        for b_ in syms:
+            plan = {"start": start, "seq": [list(a_), list(b_)], "inflight": True}
+            c.check(plan, check_inflight(plan), sample=(start == 2 and a_ == ("A", 1) and b_[0] == "D" and b_[1] == 2 and b_[3] == 1))
+            if a_[0] == "A" and b_[0] == "D" and b_[1] == start:
+                for c_ in syms[4:7]:
+                    plan = {"start": start, "seq": [list(a_), list(b_), list(c_)], "inflight": True}
+                    c.check(plan, check_inflight(plan), sample=False)
 
 
 def _worker_pairs(c, start):
